@@ -177,6 +177,16 @@ PROPS["C09"] = dict(
     assumptions=["requests queued at the moment the keeper is stopped may be dropped or kept (unspecified): the model accepts both", "skchia is not instantiated by this check"],
 )
 
+PROPS["C13"] = dict(
+    pkgs=[CAP, MDB], level="exploration", death_is_violation=True, engine="rapid-harness+gate-scheduler",
+    quick=dict(checks=640, shards=16, timeout=900),
+    thorough=dict(checks=12000, shards=16, timeout=2400),
+    technique="property-based generation of concurrent programs against the keeper (scripted plot backend, plotter gates H3) and against a held real massdb.v1 plot (H2); verdicts from 'everything released, still pending' plus goroutine stacks, recover in callers, process-death attribution",
+    level_text="Generated concurrent callers, floods around the 1024-slot hand-off channel, keeper stop/start cycles and a stop inside the popped-but-not-yet-plotting window; a call that is still pending after every plot has an outcome and all gates are open is reported with the stacks of the blocked keeper goroutines. Exploration; interleavings inside the callers are sampled.",
+    level_note="Trusted: scripted backend contract; watchdog of 15 s only in combination with stack evidence; goroutine baseline comparison.",
+    assumptions=["liveness is decided as 'did not return although nothing it could wait for is outstanding'", "skchia is not instantiated"],
+)
+
 META = dict(
     na_default="check not built yet in this session (work in progress; see DESIGN.md §4) - not a claim that the technique cannot apply",
     hooks=dict(guard="verif", enable="go test -tags verif (the driver ./check always builds with -tags verif through -overlay/-modfile, see DESIGN.md §2.2)",
